@@ -156,7 +156,7 @@ def run_v_unit(path, sc, S, outdir, prop, tier, seed, baseline):
     return out, info
 
 
-def decide(prop, results, infos, baseline, known, tier):
+def decide(prop, results, infos, baseline, known, tier, engines=("V", "K", "T", "S", "F")):
     """applies baseline / known-finding rules; returns (violations, undecided, known_hits, discharged)"""
     violations, undecided, known_hits, discharged, bounded = [], [], [], [], []
     bl_ob = baseline.get("obligations", {})
@@ -193,7 +193,7 @@ def decide(prop, results, infos, baseline, known, tier):
     # obligations of the baseline that did not show up at all
     seen = {r.ob for r in results}
     for ob, b in bl_ob.items():
-        if prop in b.get("props", []) and ob not in seen and b.get("tier", "quick") in ("quick", tier):
+        if prop in b.get("props", []) and ob not in seen and b.get("tier", "quick") in ("quick", tier) and b.get("engine", "V") in engines:
             if not any(r.ob.endswith("/*") and ob.startswith(r.ob[:-1]) for r in results):
                 undecided.append(Result(ob, b.get("engine", "?"), "undecided", "obligation of the pristine tree was not generated in this run"))
     return violations, undecided, known_hits, discharged, bounded
@@ -314,7 +314,7 @@ def main(argv=None):
             json.dump(bl, f, indent=1, sort_keys=True)
         print(f"baseline updated: {len(bl['obligations'])} obligations")
 
-    violations, undecided, known_hits, discharged, bounded = decide(prop, results, infos, baseline if not args.rebaseline else load_baseline(), known, args.tier)
+    violations, undecided, known_hits, discharged, bounded = decide(prop, results, infos, baseline if not args.rebaseline else load_baseline(), known, args.tier, engines)
 
     # a Verus failure may have a Kani twin that yields a concrete input
     lines = []
